@@ -11,6 +11,8 @@
 //                K:<hex>  constant double
 //                ADD SUB MUL DIV LN SQRT   primitive over column 1 (and 2)
 //                R:<seed> random MEP program over {X1,X2,REAL,ADD,SUB,MUL,DIV,LN,SQRT,ABS}
+//                Y        identity on column 2
+//                T:<p>+<p>+...  a team<i_mep> of such members (output line gets mouts=<m1>/<m2>/..,...)
 //       values : v | i:<dec> | d:<hex64>
 //   ga <hex>                     ga_evaluator on an objective returning <hex>
 //   con <hexpenalty> <hexvalue>  constrained_evaluator(ga_evaluator(value), penalty)
@@ -74,6 +76,8 @@ static i_mep make_program(const std::string &p, symbols &s,
   using G = std::pair<symbol *, std::vector<index_t>>;
   if (p == "X")
     return i_mep(std::vector<gene>{gene(G{&s.x1, {}})});
+  if (p == "Y")
+    return i_mep(std::vector<gene>{gene(G{&s.x2, {}})});
   if (p.rfind("K:", 0) == 0)
   {
     const double k(vv::double_of(std::stoull(p.substr(2), nullptr, 16)));
@@ -123,11 +127,139 @@ static i_mep make_program(const std::string &p, symbols &s,
   return i_mep(g);
 }
 
-template<class E>
-static fitness_t run_eva(dataframe &d, const i_mep &prg, bool fast = false)
+template<class E, class P>
+static fitness_t run_eva(dataframe &d, const P &prg, bool fast = false)
 {
   E eva(d);
   return fast ? eva.fast(prg) : eva(prg);
+}
+
+// one dataset, one program (an individual or a team): outputs, evaluator,
+// difficulties, frame
+template<class T>
+static void eval_case(const T &prg, const std::string &kind, bool fast, dataframe &d,
+                      const std::vector<std::string> &w, std::size_t n, const std::string &mouts)
+{
+
+  std::string outs("outs=");
+  {
+    const basic_reg_lambda_f<T, false> agent(prg);
+    bool first(true);
+    for (const auto &e : d)
+    {
+      if (!first) outs += ",";
+      first = false;
+      outs += vv::show(agent(e));
+    }
+  }
+
+  // what lexical_cast<double> (std::stod) answers on the string cells:
+  // <output cast>/<target cast> per row, hex64 | T (throws) | - (not a string)
+  std::string casts(" casts=");
+  {
+    const basic_reg_lambda_f<T, false> agent(prg);
+    auto cast_of = [](const value_t &v) -> std::string
+    {
+      if (v.index() != d_string) return "-";
+      try
+      {
+        const double c(lexical_cast<double>(v));
+        return (c != c) ? std::string("7ff8000000000000") : vv::hex64(vv::bits_of(c));
+      }
+      catch (const std::logic_error &) { return "T"; }
+    };
+    bool first(true);
+    for (const auto &e : d)
+    {
+      if (!first) casts += ",";
+      first = false;
+      casts += cast_of(agent(e)) + "/" + cast_of(e.output);
+    }
+  }
+
+  std::string tags;
+  auto add_tags = [&](const auto &lambda)
+  {
+    tags = " tags=";
+    bool first(true);
+    for (const auto &e : d)
+    {
+      const auto r(lambda.tag(e));
+      if (!first) tags += ",";
+      first = false;
+      const double s(r.sureness);
+      tags += std::to_string(r.label) + ":"
+              + ((s != s) ? std::string("7ff8000000000000") : vv::hex64(vv::bits_of(s)));
+    }
+  };
+
+  fitness_t f;
+  bool thrown(false);
+  try
+  {
+    if (kind == "mae") f = run_eva<mae_evaluator<T>>(d, prg, fast);
+    else if (kind == "rmae") f = run_eva<rmae_evaluator<T>>(d, prg, fast);
+    else if (kind == "mse") f = run_eva<mse_evaluator<T>>(d, prg, fast);
+    else if (kind == "count") f = run_eva<count_evaluator<T>>(d, prg, fast);
+    else if (kind == "binary")
+    {
+      try { add_tags(basic_binary_lambda_f<T, false, false>(prg, d)); }
+      catch (const std::bad_variant_access &) { tags = " tags=THROW"; }
+      f = run_eva<binary_evaluator<T>>(d, prg);
+    }
+    else if (kind == "dynslot")
+    {
+      try { add_tags(basic_dyn_slot_lambda_f<T, false, false>(prg, d, 10)); }
+      catch (const std::bad_variant_access &) { tags = " tags=THROW"; }
+      f = run_eva<dyn_slot_evaluator<T>>(d, prg);
+    }
+    else if (kind == "gaussian")
+    {
+      try { add_tags(basic_gaussian_lambda_f<T, false, false>(prg, d)); }
+      catch (const std::bad_variant_access &) { tags = " tags=THROW"; }
+      f = run_eva<gaussian_evaluator<T>>(d, prg);
+    }
+    else { std::cout << "UNKNOWN\n"; return; }
+  }
+  catch (const std::bad_variant_access &)
+  {
+    // label() on an example whose output cell is not an integer: the
+    // dataset is reported as the evaluator left it
+    thrown = true;
+  }
+  catch (const std::logic_error &)
+  {
+    // lexical_cast<double>(string) = std::stod: std::invalid_argument /
+    // std::out_of_range
+    thrown = true;
+  }
+
+  std::string diff(" diff=");
+  {
+    bool first(true);
+    for (const auto &e : d)
+    {
+      if (!first) diff += ",";
+      first = false;
+      diff += std::to_string(e.difficulty);
+    }
+  }
+  // frame: everything but the difficulty must be untouched, order kept
+  bool frame(d.size() == n);
+  {
+    std::size_t i(0);
+    for (const auto &e : d)
+    {
+      if (i < n)
+        frame = frame && vv::show(e.input[0]) == vv::show(vv::parse_value(w[4 + 4 * i]))
+                && vv::show(e.input[1]) == vv::show(vv::parse_value(w[5 + 4 * i]))
+                && vv::show(e.output) == vv::show(vv::parse_value(w[6 + 4 * i]))
+                && e.age == 0 && e.input.size() == 2;
+      ++i;
+    }
+  }
+  std::cout << (thrown ? std::string("THROW") : show_fit(f)) << ' ' << outs << diff
+            << " frame=" << (frame ? 1 : 0) << casts << mouts << tags << '\n';
 }
 
 int main()
@@ -201,127 +333,33 @@ int main()
       }
 
       std::vector<std::unique_ptr<symbol>> keep;
-      const i_mep prg(make_program(w[2], syms, keep));
-
-      std::string outs("outs=");
+      if (w[2].rfind("T:", 0) == 0)
       {
-        const basic_reg_lambda_f<i_mep, false> agent(prg);
+        // a team: T:<member>+<member>+...   (members: X Y K:<hex> ...)
+        std::vector<i_mep> members;
+        std::istringstream ms(w[2].substr(2));
+        std::string m;
+        while (std::getline(ms, m, '+'))
+          members.push_back(make_program(m, syms, keep));
+        // what each member yields on each example (the team's documented output
+        // is the running mean of the defined ones)
+        std::string mouts(" mouts=");
         bool first(true);
         for (const auto &e : d)
         {
-          if (!first) outs += ",";
+          if (!first) mouts += ",";
           first = false;
-          outs += vv::show(agent(e));
-        }
-      }
-
-      // what lexical_cast<double> (std::stod) answers on the string cells:
-      // <output cast>/<target cast> per row, hex64 | T (throws) | - (not a string)
-      std::string casts(" casts=");
-      {
-        const basic_reg_lambda_f<i_mep, false> agent(prg);
-        auto cast_of = [](const value_t &v) -> std::string
-        {
-          if (v.index() != d_string) return "-";
-          try
+          for (std::size_t k(0); k < members.size(); ++k)
           {
-            const double c(lexical_cast<double>(v));
-            return (c != c) ? std::string("7ff8000000000000") : vv::hex64(vv::bits_of(c));
+            const basic_reg_lambda_f<i_mep, false> agent(members[k]);
+            if (k) mouts += "/";
+            mouts += vv::show(agent(e));
           }
-          catch (const std::logic_error &) { return "T"; }
-        };
-        bool first(true);
-        for (const auto &e : d)
-        {
-          if (!first) casts += ",";
-          first = false;
-          casts += cast_of(agent(e)) + "/" + cast_of(e.output);
         }
+        eval_case(team<i_mep>(members), kind, fast, d, w, n, mouts);
       }
-
-      std::string tags;
-      auto add_tags = [&](const auto &lambda)
-      {
-        tags = " tags=";
-        bool first(true);
-        for (const auto &e : d)
-        {
-          const auto r(lambda.tag(e));
-          if (!first) tags += ",";
-          first = false;
-          const double s(r.sureness);
-          tags += std::to_string(r.label) + ":"
-                  + ((s != s) ? std::string("7ff8000000000000") : vv::hex64(vv::bits_of(s)));
-        }
-      };
-
-      fitness_t f;
-      bool thrown(false);
-      try
-      {
-        if (kind == "mae") f = run_eva<mae_evaluator<i_mep>>(d, prg, fast);
-        else if (kind == "rmae") f = run_eva<rmae_evaluator<i_mep>>(d, prg, fast);
-        else if (kind == "mse") f = run_eva<mse_evaluator<i_mep>>(d, prg, fast);
-        else if (kind == "count") f = run_eva<count_evaluator<i_mep>>(d, prg, fast);
-        else if (kind == "binary")
-        {
-          try { add_tags(basic_binary_lambda_f<i_mep, false, false>(prg, d)); }
-          catch (const std::bad_variant_access &) { tags = " tags=THROW"; }
-          f = run_eva<binary_evaluator<i_mep>>(d, prg);
-        }
-        else if (kind == "dynslot")
-        {
-          try { add_tags(basic_dyn_slot_lambda_f<i_mep, false, false>(prg, d, 10)); }
-          catch (const std::bad_variant_access &) { tags = " tags=THROW"; }
-          f = run_eva<dyn_slot_evaluator<i_mep>>(d, prg);
-        }
-        else if (kind == "gaussian")
-        {
-          try { add_tags(basic_gaussian_lambda_f<i_mep, false, false>(prg, d)); }
-          catch (const std::bad_variant_access &) { tags = " tags=THROW"; }
-          f = run_eva<gaussian_evaluator<i_mep>>(d, prg);
-        }
-        else { std::cout << "UNKNOWN\n"; continue; }
-      }
-      catch (const std::bad_variant_access &)
-      {
-        // label() on an example whose output cell is not an integer: the
-        // dataset is reported as the evaluator left it
-        thrown = true;
-      }
-      catch (const std::logic_error &)
-      {
-        // lexical_cast<double>(string) = std::stod: std::invalid_argument /
-        // std::out_of_range
-        thrown = true;
-      }
-
-      std::string diff(" diff=");
-      {
-        bool first(true);
-        for (const auto &e : d)
-        {
-          if (!first) diff += ",";
-          first = false;
-          diff += std::to_string(e.difficulty);
-        }
-      }
-      // frame: everything but the difficulty must be untouched, order kept
-      bool frame(d.size() == n);
-      {
-        std::size_t i(0);
-        for (const auto &e : d)
-        {
-          if (i < n)
-            frame = frame && vv::show(e.input[0]) == vv::show(vv::parse_value(w[4 + 4 * i]))
-                    && vv::show(e.input[1]) == vv::show(vv::parse_value(w[5 + 4 * i]))
-                    && vv::show(e.output) == vv::show(vv::parse_value(w[6 + 4 * i]))
-                    && e.age == 0 && e.input.size() == 2;
-          ++i;
-        }
-      }
-      std::cout << (thrown ? std::string("THROW") : show_fit(f)) << ' ' << outs << diff
-                << " frame=" << (frame ? 1 : 0) << casts << tags << '\n';
+      else
+        eval_case(make_program(w[2], syms, keep), kind, fast, d, w, n, "");
     }
     catch (const std::exception &e)
     {
